@@ -30,8 +30,23 @@ def triple(getter):
 def make_tm(getter):
     """a TransformedModel over an (unfitted but parameterised) base model with admissible dependence parameters"""
     from virocon import GlobalHierarchicalModel, TransformedModel
-    t, inv, jac, res = triple(getter)
+    fitted = getter.startswith("fitted:")
+    t, inv, jac, res = triple(getter.split(":")[-1])
     base = GlobalHierarchicalModel(res[0])
+    if fitted:
+        # the documented use: the Hs-steepness model fitted to the shipped one-year dataset C (narrow conditionals)
+        import os
+        import pandas as pd
+        from virocon import read_ec_benchmark_dataset
+        root = os.environ.get("VIROCON_REPO", "/repo")
+        data = read_ec_benchmark_dataset(os.path.join(root, "datasets", "ec-benchmark_dataset_C_1year.txt"))
+        hs, tz = data.iloc[:, 0], data.iloc[:, 1]
+        import virocon.variable_transform as vt
+        _, st = vt.hs_tz_to_hs_s(hs, tz)
+        st.name = "steepness"
+        with warnings.catch_warnings():
+            warnings.simplefilter("ignore")
+            base.fit(pd.concat([hs, st], axis=1), res[1])
     return TransformedModel(base, t, inv, jac, precision_factor=0.2, random_state=42), base
 
 
@@ -67,6 +82,24 @@ def oracle_closed(pt):
         if not math.isclose(det, jv, rel_tol=1e-5):
             return ({"clause": "jacobian", "pair": getter}, "%s: jacobian(%r) = %r but |det D transform| = %r" % (getter, x.tolist(), jv, det))
     return None
+
+
+def ref_cdf(tm, cdim, given):
+    """conditional cdf of coordinate cdim given the other one, by trapezoidal integration of the joint density on a two-level grid:
+    coarse to locate the mass, fine over the interval that carries it (narrow conditionals)"""
+    coarse = np.linspace(1e-6, 60, 60001)
+    pt = (lambda g: np.column_stack([np.full_like(g, given), g])) if cdim == 1 else (lambda g: np.column_stack([g, np.full_like(g, given)]))
+    dc = np.nan_to_num(tm.pdf(pt(coarse)))
+    if dc.max() <= 0:
+        return None
+    live = np.nonzero(dc > dc.max() * 1e-14)[0]
+    lo, hi = coarse[max(live[0] - 1, 0)], coarse[min(live[-1] + 1, len(coarse) - 1)]
+    grid = np.linspace(lo, hi, 200001)
+    dens = np.nan_to_num(tm.pdf(pt(grid)))
+    cdf = np.concatenate([[0], np.cumsum((dens[1:] + dens[:-1]) / 2 * np.diff(grid))])
+    if cdf[-1] <= 0:
+        return None
+    return grid, cdf / cdf[-1]
 
 
 def oracle_model(getter, rng, tier_quick, notes):
@@ -124,37 +157,63 @@ def oracle_model(getter, rng, tier_quick, notes):
     # Monte-Carlo conditional sample vs the conditional density (DKW, error probability 1e-12)
     n = 20000
     eps = math.sqrt(math.log(2 / 1e-12) / (2 * n))
-    hs_vals = [1.0, 3.0] if tier_quick else [0.5, 1.0, 3.0, 6.0, 9.0]
-    for hs in hs_vals:
+    conds = [(1, 1.0), (1, 3.0), (0, 8.0), (0, 3.0), (0, 2.0)] if tier_quick else \
+        [(1, 0.5), (1, 1.0), (1, 3.0), (1, 6.0), (1, 9.0), (0, 12.0), (0, 8.0), (0, 5.0), (0, 3.0), (0, 2.5), (0, 2.0)]
+    n0 = n
+    for cdim, hs in conds:
+        # narrow conditionals (rejection envelope hardest to get right): ten times the sample, a third of the DKW bound
+        n = n0 * 10 if (cdim == 0 and hs <= 2.5) else n0
+        eps = math.sqrt(math.log(2 / 1e-12) / (2 * n))
         with warnings.catch_warnings():
             warnings.simplefilter("ignore")
             try:
-                smp = tm.conditional_sample(n, 1, hs, random_state=7)
+                smp = tm.conditional_sample(n, cdim, hs, random_state=7)
             except Exception as e:  # noqa
                 notes["unjudgeable_conditional"] = notes.get("unjudgeable_conditional", 0) + 1
                 continue
         if len(smp) < n:
             notes["unjudgeable_conditional"] = notes.get("unjudgeable_conditional", 0) + 1
             continue
-        grid = np.linspace(1e-6, 60, 24001)
-        dens = tm.pdf(np.column_stack([np.full_like(grid, hs), grid]))
-        cdf = np.concatenate([[0], np.cumsum((dens[1:] + dens[:-1]) / 2 * np.diff(grid))])
-        if cdf[-1] <= 0:
+        ref = ref_cdf(tm, cdim, hs)
+        if ref is None:
             continue
-        cdf /= cdf[-1]
+        grid, cdf = ref
         ss = np.sort(smp)
-        F = np.interp(ss, grid, cdf)
+        F = np.interp(ss, grid, cdf, left=0.0, right=1.0)
         ecdf_hi = np.arange(1, n + 1) / n
         ecdf_lo = np.arange(0, n) / n
         dev = max(np.max(np.abs(ecdf_hi - F)), np.max(np.abs(ecdf_lo - F)))
-        notes.setdefault("dkw_deviation", []).append(round(float(dev), 5))
+        notes.setdefault("dkw_deviation", []).append([cdim, hs, round(float(dev), 5)])
         if dev > eps + 2e-3:
-            return ({"clause": "conditional-sample", "getter": getter, "given": hs},
-                    "conditional_sample(tz | hs=%r) deviates from the conditional density: sup|F_n - F| = %.4f > DKW bound %.4f" % (hs, dev, eps))
-        s2 = tm.conditional_sample(200, 1, hs, random_state=7)
-        s3 = tm.conditional_sample(200, 1, hs, random_state=7)
+            return ({"clause": "conditional-sample", "getter": getter, "dim": cdim, "given": hs},
+                    "conditional_sample(dim=%d | other=%r) deviates from the conditional density: sup|F_n - F| = %.4f > DKW bound %.4f" % (cdim, hs, dev, eps))
+        s2 = tm.conditional_sample(200, cdim, hs, random_state=7)
+        s3 = tm.conditional_sample(200, cdim, hs, random_state=7)
         if not np.array_equal(s2, s3):
             return ({"clause": "seed", "getter": getter}, "conditional_sample not reproducible for a fixed random_state")
+    # conditional_cdf: element i is the conditional cdf at x[i] given given[i], for givens in ANY order, with repeats
+    # (the implementation uses 100000 draws per element: DKW bound at error probability 1e-12)
+    eps_c = math.sqrt(math.log(2 / 1e-12) / (2 * 100000))
+    for cdim, givens, qs in [(1, [3.0, 1.0, 3.0, 2.0, 1.0, 0.5], [0.2, 0.9, 0.7, 0.5, 0.1, 0.6]),
+                             (0, [8.0, 4.0, 8.0, 6.0], [0.3, 0.8, 0.9, 0.5])]:
+        refs = {g: ref_cdf(tm, cdim, g) for g in set(givens)}
+        if any(r is None for r in refs.values()):
+            continue
+        xs = np.array([float(np.interp(q, refs[g][1], refs[g][0])) for g, q in zip(givens, qs)])
+        with warnings.catch_warnings():
+            warnings.simplefilter("ignore")
+            try:
+                got = np.asarray(tm.conditional_cdf(xs, cdim, np.array(givens), random_state=11), dtype=float)
+            except Exception as e:  # noqa
+                return ({"clause": "conditional-cdf", "getter": getter, "dim": cdim, "exc": type(e).__name__},
+                        "conditional_cdf(%r, %d, %r) raised %s: %s" % (xs.tolist(), cdim, givens, type(e).__name__, str(e)[:100]))
+        want = np.array([float(np.interp(x, refs[g][0], refs[g][1], left=0.0, right=1.0)) for g, x in zip(givens, xs)])
+        notes.setdefault("conditional_cdf_dev", []).append(round(float(np.max(np.abs(got - want))), 5))
+        if got.shape != want.shape or np.max(np.abs(got - want)) > eps_c + 2e-3:
+            i = int(np.argmax(np.abs(got - want))) if got.shape == want.shape else 0
+            return ({"clause": "conditional-cdf", "getter": getter, "dim": cdim},
+                    "conditional_cdf(x=%r, dim=%d, given=%r) = %r but the conditional density gives %r (element %d off by more than the DKW bound %.4f)"
+                    % (xs.tolist(), cdim, givens, got.tolist(), want.tolist(), i, eps_c))
     return None
 
 
@@ -232,7 +291,7 @@ def run(ctx):
             if found >= 4:
                 break
     notes = {}
-    for g in GETTERS:
+    for g in GETTERS + ["fitted:get_Windmeier_EW_Hs_S"]:
         try:
             o = oracle_model(g, ctx.np_rng(1), ctx.quick(), notes)
         except Exception as e:  # noqa
